@@ -23,6 +23,7 @@ import (
 	"sort"
 	"strings"
 	"sync"
+	"sync/atomic"
 	"time"
 
 	"github.com/coredns/coredns/plugin/pkg/dnstest"
@@ -148,6 +149,10 @@ type c19case struct {
 	Q       *qspec  `json:"q,omitempty"`
 	Cls     *qclass `json:"cls,omitempty"`
 	Obs     *qobs   `json:"obs,omitempty"`
+	// race (class cleaner-race)
+	Plan   *racePlan `json:"plan,omitempty"`
+	REvs   []raceEv  `json:"revs,omitempty"`
+	Missed string    `json:"missed,omitempty"` // diagnostic: why the round could not provoke the interleaving
 	// conc
 	Threads [][]incOp            `json:"threads,omitempty"`
 	NExp    int                  `json:"nexp,omitempty"`
@@ -1258,6 +1263,323 @@ func queryPart(a *hlib.Args, e *hlib.Emitter, dbs *dbSet) error {
 	return nil
 }
 
+// ------------------------------------------------------------------ cleaner race (class cleaner-race)
+//
+// Free-running class: a real window with its real cleaner goroutine (1 s ticker), no
+// controlled clock.  The window model is sequential; this class checks that concurrency
+// with the cleaner does not take the code outside the sequential model: an export at
+// time t must report exactly the samples whose add time lies in the last lifetime,
+// whatever the cleaner was doing at that moment.
+//
+// One round (lifetime 1 s, the tick provoked is the second one, T = 2 s after creation):
+//   X      a block of samples added right after creation (200 ms at most) and left to expire unread
+//          (expired by 1.2 s; the larger, the longer the cleaner scans at T)
+//   Y, Z   live samples with known values, at least as many as X, added from 1.28 s on
+//   P      from T - 30 ms on a prober goroutine keeps adding samples; an Add that stays
+//          blocked for more than 40 us tells that the cleaner holds the window lock;
+//   export 1 is launched at that very moment (it arrives while the cleaner is at work),
+//   the prober stops, export 2 follows 120 ms later, export 3 after everything expired.
+// Blocks and exports carry the times taken by the harness itself around the calls; the
+// verdict uses only those: a block counts as live for an export when even its first
+// sample cannot have expired before the export returned, as expired when even its last
+// sample had expired before the export started; anything in between makes the round
+// undecided (it is re-run, then skipped).  For export 1 the block P is still growing:
+// the number of P samples reported must lie between the number added before the export
+// started and the number started before it returned.  Load can only make a round
+// useless (the interleaving is not provoked), never wrong.
+
+type racePlan struct {
+	Raw      bool  `json:"raw"`
+	LMs      int   `json:"l_ms"`
+	NExpired int   `json:"n_expired"`
+	NLive    int   `json:"n_live"` // size of block Y (block Z has 7 samples)
+	VX       int64 `json:"vx"`
+	VY       int64 `json:"vy"`
+	VZ       int64 `json:"vz"`
+	VP       int64 `json:"vp"`
+}
+
+type raceEv struct {
+	Op      string     `json:"op"` // block | read | get
+	TB      int64      `json:"tb"` // microseconds since window creation, taken before the (first) call
+	TA      int64      `json:"ta"` // ... after the (last) call
+	V       int64      `json:"v,omitempty"`
+	N       int64      `json:"n,omitempty"`
+	RLE     [][2]int64 `json:"rle,omitempty"` // run-length encoding of Samples(): (value, count)
+	Present bool       `json:"present,omitempty"`
+	Min     int64      `json:"min,omitempty"`
+	Max     int64      `json:"max,omitempty"`
+	Avg     int64      `json:"avg,omitempty"`
+	// read while block P is growing: value of P, bounds on how many P samples existed
+	OpenV  int64 `json:"open_v,omitempty"`
+	OpenLo int64 `json:"open_lo,omitempty"`
+	OpenHi int64 `json:"open_hi,omitempty"`
+	Open   bool  `json:"open,omitempty"`
+}
+
+func rle(vals []int64) [][2]int64 {
+	res := [][2]int64{}
+	for _, v := range vals {
+		if n := len(res); n > 0 && res[n-1][0] == v {
+			res[n-1][1]++
+		} else {
+			res = append(res, [2]int64{v, 1})
+		}
+	}
+	return res
+}
+
+func runRace(p racePlan) c19case {
+	c := c19case{Kind: "race", Class: "cleaner-race", Plan: &p}
+	life := time.Duration(p.LMs) * time.Millisecond
+	var sw *metrics.SlidingWindowForVerif
+	var st *metrics.Stats
+	start := time.Now()
+	us := func() int64 { return time.Since(start).Microseconds() }
+	add := func(v int64) {}
+	if p.Raw {
+		var err error
+		sw, err = metrics.NewSlidingWindowForVerif(life)
+		if err != nil {
+			panic(err)
+		}
+		defer sw.Stop()
+		add = sw.Add
+	} else {
+		st = metrics.NewStats()
+		add = func(v int64) { st.AddSampleForVerif("w", v, life) }
+	}
+	block := func(v int64, n int) {
+		e := raceEv{Op: "block", V: v, N: int64(n), TB: us()}
+		for i := 0; i < n; i++ {
+			add(v)
+		}
+		e.TA = us()
+		c.REvs = append(c.REvs, e)
+	}
+	export := func() raceEv {
+		e := raceEv{TB: us()}
+		if p.Raw {
+			vals := sw.Samples()
+			e.TA = us()
+			e.Op, e.RLE = "read", rle(vals)
+		} else {
+			m := st.Get()
+			e.TA = us()
+			e.Op = "get"
+			e.Min, e.Present = m["w.min"]
+			e.Max, e.Avg = m["w.max"], m["w.avg"]
+		}
+		return e
+	}
+	spinUntil := func(at time.Duration) {
+		if d := at - time.Since(start) - 2*time.Millisecond; d > 0 {
+			time.Sleep(d)
+		}
+		for time.Since(start) < at {
+		}
+	}
+	// the cleaner of a Stats window starts with the first AddSample, i.e. now as well.
+	// X: at most NExpired samples, at most 200 ms (the cost of an Add varies a lot: time.Now()
+	// and page faults of a growing slice are expensive on some virtual machines)
+	{
+		e := raceEv{Op: "block", V: p.VX, TB: us()}
+		n := 0
+		for n < p.NExpired && (n%256 != 0 || time.Since(start) < 200*time.Millisecond) {
+			add(p.VX)
+			n++
+		}
+		e.N, e.TA = int64(n), us()
+		c.REvs = append(c.REvs, e)
+	}
+	nx := int(c.REvs[0].N)
+	xDone := time.Since(start)
+	liveAt := 1280 * time.Millisecond
+	if xDone > liveAt-50*time.Millisecond {
+		liveAt = xDone + 50*time.Millisecond
+	}
+	spinUntil(liveAt)
+	block(p.VY, nx+16+p.NLive%100) // at least as many live samples as X had
+	block(p.VZ, 7)
+	tick := 2 * time.Second
+	if time.Since(start) > tick-40*time.Millisecond || xDone+life > tick-40*time.Millisecond {
+		// too late for this tick (load): give the round up rather than export at a random phase
+		c.Missed = "blocks not in place before the tick"
+		return c
+	}
+	// prober
+	var inCall, count atomic.Int64
+	var stop atomic.Bool
+	done := make(chan raceEv, 1)
+	spinUntil(tick - 30*time.Millisecond)
+	go func() {
+		e := raceEv{Op: "block", V: p.VP, TB: us()}
+		for !stop.Load() {
+			inCall.Store(int64(time.Since(start)) + 1)
+			add(p.VP)
+			inCall.Store(0)
+			count.Add(1)
+		}
+		e.TA = us()
+		e.N = count.Load()
+		done <- e
+	}()
+	// fire the first export when an Add has been blocked for 40 us (armed shortly before T)
+	spinUntil(tick - 300*time.Microsecond)
+	fired := "timeout"
+	for time.Since(start) < tick+20*time.Millisecond {
+		if s := inCall.Load(); s != 0 && int64(time.Since(start))-s > int64(40*time.Microsecond) {
+			fired = "blocked-add"
+			break
+		}
+	}
+	lo := count.Load()
+	e1 := export()
+	e1.Open, e1.OpenV, e1.OpenLo, e1.OpenHi = true, p.VP, lo, count.Load()+1
+	stop.Store(true)
+	pb := <-done
+	if c.Missed == "" && fired != "blocked-add" {
+		c.Missed = "no blocked Add seen around the tick"
+	}
+	if p.Raw {
+		// judged with the bounds on the growing block; the Stats export (an average over a
+		// growing block) is only recorded through its successors
+		c.REvs = append(c.REvs, e1)
+	}
+	c.REvs = append(c.REvs, pb)
+	time.Sleep(120 * time.Millisecond)
+	c.REvs = append(c.REvs, export())
+	// after everything has expired, away from the next tick
+	end := time.Duration(pb.TA)*time.Microsecond + life + 150*time.Millisecond
+	for end%time.Second < 150*time.Millisecond || end%time.Second > 850*time.Millisecond {
+		end += 100 * time.Millisecond
+	}
+	spinUntil(end)
+	c.REvs = append(c.REvs, export())
+	// undecided exports make the round ambiguous (re-run by the caller)
+	lus := int64(p.LMs) * 1000
+	for i, r := range c.REvs {
+		if r.Op == "block" {
+			continue
+		}
+		for _, b := range c.REvs[:i] {
+			if b.Op == "block" && !(r.TA <= b.TB+lus) && !(b.TA+lus < r.TB) {
+				c.Ambiguous = true
+			}
+		}
+	}
+	return c
+}
+
+// raceLost: the export after the tick reports fewer samples than the live blocks hold
+// (harness-side hint used only to decide whether a replay attempt is worth repeating;
+// the verdict is Coq's).
+func raceLost(c c19case) bool {
+	var want, sum int64
+	var second *raceEv
+	for i := range c.REvs {
+		e := &c.REvs[i]
+		switch {
+		case e.Op == "block" && e.V != c.Plan.VX:
+			want += e.N
+			sum += e.N * e.V
+		case e.Op != "block" && !e.Open && second == nil:
+			second = e
+		}
+	}
+	if second == nil || want == 0 {
+		return false
+	}
+	if c.Plan.Raw {
+		var n int64
+		for _, r := range second.RLE {
+			n += r[1]
+		}
+		return n != want
+	}
+	return second.Avg != sum/want
+}
+
+// addCost measures what one Add costs on this machine (time.Now() is a real system
+// call on some virtual machines), so that block X can be sized to take about 0.4 s.
+func addCost(raw bool) time.Duration {
+	const n = 20000
+	life := time.Minute
+	t := time.Now()
+	if raw {
+		sw, err := metrics.NewSlidingWindowForVerif(life)
+		if err != nil {
+			panic(err)
+		}
+		for i := 0; i < n; i++ {
+			sw.Add(1)
+		}
+		sw.Stop()
+	} else {
+		st := metrics.NewStats()
+		for i := 0; i < n; i++ {
+			st.AddSampleForVerif("w", 1, life)
+		}
+	}
+	d := time.Since(t) / n
+	if d <= 0 {
+		d = time.Nanosecond
+	}
+	return d
+}
+
+func racePlans(seed uint64, tier string) []racePlan {
+	r := hlib.NewRng(seed, 194)
+	n := 6
+	if tier == "thorough" {
+		n = 18
+	}
+	size := func(raw bool) int {
+		e := int(250 * time.Millisecond / addCost(raw))
+		if e > 300000 {
+			e = 300000
+		}
+		if e < 20000 {
+			e = 20000
+		}
+		return e
+	}
+	eRaw, eStats := size(true), size(false)
+	var res []racePlan
+	for i := 0; i < n; i++ {
+		raw := i%2 == 0
+		e := eStats
+		if raw {
+			e = eRaw
+		}
+		e -= r.Intn(e / 10)
+		res = append(res, racePlan{Raw: raw, LMs: 1000, NExpired: e, NLive: e + 16 + r.Intn(100),
+			VX: 9999, VY: int64(5 + r.Intn(90)), VZ: int64(300 + r.Intn(600)), VP: int64(100 + r.Intn(100))})
+	}
+	return res
+}
+
+// racePart plays the rounds six at a time.
+func racePart(seed uint64, tier string) []c19case {
+	plans := racePlans(seed, tier)
+	res := make([]c19case, len(plans))
+	for lo := 0; lo < len(plans); lo += 6 {
+		var wg sync.WaitGroup
+		for i := lo; i < lo+6 && i < len(plans); i++ {
+			wg.Add(1)
+			go func(i int) {
+				defer wg.Done()
+				res[i] = runRace(plans[i])
+				for k := 0; k < 2 && res[i].Ambiguous; k++ {
+					res[i] = runRace(plans[i])
+				}
+			}(i)
+		}
+		wg.Wait()
+	}
+	return res
+}
+
 // ------------------------------------------------------------------ concurrent counters
 
 func runConc(threads [][]incOp, nexp int) c19case {
@@ -1342,6 +1664,18 @@ func run(a *hlib.Args, e *hlib.Emitter) error {
 			fmt.Fprintf(os.Stderr, "c19 timing: %s at %.2fs\n", what, time.Since(t0).Seconds())
 		}
 	}
+	if a.Extra == "raceonly" {
+		for _, c := range racePart(a.Seed, a.Tier) {
+			e.Emit(c)
+		}
+		return nil
+	}
+	// the race rounds go first, alone: they are sensitive to CPU contention (which can
+	// only make a round useless, not wrong)
+	for _, c := range racePart(a.Seed, a.Tier) {
+		e.Emit(c)
+	}
+	lap("race rounds done")
 	winCh := make(chan []c19case, 1)
 	go func() { winCh <- windowPart(a.Seed, a.Tier) }()
 	dbs, err := buildDBs(scratch)
@@ -1402,6 +1736,13 @@ func replay(a *hlib.Args, e *hlib.Emitter, scratch string) error {
 			s.close()
 		case "conc":
 			e.Emit(runConc(c.Threads, c.NExp))
+		case "race":
+			// the interleaving is provoked, not forced: a few attempts with the same parameters
+			res := runRace(*c.Plan)
+			for i := 0; i < 3 && (res.Ambiguous || !raceLost(res)); i++ {
+				res = runRace(*c.Plan)
+			}
+			e.Emit(res)
 		}
 	}
 	return nil
